@@ -12,6 +12,10 @@
       tagged refusal. Hypotheses: the command is one of the modelled writers with a well-formed
       MODSEQ entry type (`cmdRawOK`), and the encoder did not itself refuse an argument (an invalid
       flag: the client then closes the connection; judged by the oracle at run time only).
+    * `session_state`, `session_conforms` — the same at any point of a session: the client's record
+      of capabilities / enabled extensions equals the server's state per the RFCs after any sequence
+      of capability lists, ENABLED responses and UNAUTHENTICATE completions (RFC 8437 §3), and the
+      command written then is legal for the server as it then stands.
     * `payload_after_cont`, `nothing_after_refusal` — the synchronisation clauses of `conforms`
       spelled out on the scanner's final state; `no_hang`, `no_stale_request` — the command always
       gets the `+` that answers it, and leaves no continuation request behind.
@@ -79,6 +83,48 @@ theorem no_stale_request (caps enabled : List Cap) (tagNo : Nat) (c : Cmd) (scri
     (q : List Nat) (hc : cmdRawOK c = true) (h : execFrom [] caps enabled tagNo c script = some (o, q))
     (hres : o.result ≠ .err) : q = [] :=
   execFrom_queue_nil caps enabled tagNo c script o q hc h hres
+
+/-! ### across a session -/
+
+/-- what the server said that made the client take this step -/
+def toSrv : SessStep → ClientSyntaxSpec.SrvEv
+  | .setCaps l => .advertised l
+  | .enabled l => .enabledResp l
+  | .unauthDone => .unauthenticated
+
+/-- the client's record of the negotiated state is the server's state per the RFCs: a capability
+    list replaces the previous one, ENABLED adds, a successful UNAUTHENTICATE clears what was enabled -/
+theorem session_state (steps : List SessStep) (s : Sess) (srv : Server)
+    (hc : s.caps = srv.adv) (he : s.enabled = srv.enabled) :
+    (s.run steps).caps = (srv.afterAll (steps.map toSrv)).adv ∧
+      (s.run steps).enabled = (srv.afterAll (steps.map toSrv)).enabled := by
+  induction steps generalizing s srv with
+  | nil => exact ⟨hc, he⟩
+  | cons st steps ih =>
+    unfold Sess.run ClientSyntaxSpec.Server.afterAll
+    simp only [List.map_cons, List.foldl_cons]
+    apply ih
+    · cases st <;> simp [Sess.step, toSrv, ClientSyntaxSpec.Server.after, hc]
+    · cases st <;> simp [Sess.step, toSrv, ClientSyntaxSpec.Server.after, he]
+
+/-- `conforms` at any point of a session: a command is legal for the server as the server stands
+    when the command is written (the snapshot is taken with the encoder lock held), after any
+    sequence of capability lists, ENABLED responses and UNAUTHENTICATE completions -/
+theorem session_conforms (steps : List SessStep) (tagNo : Nat) (c : Cmd) (script : List Act) (o : Outcome)
+    (hc : cmdRawOK c = true) (h : execIn (Sess.run {} steps) tagNo c script = some o) (hres : o.result ≠ .err) :
+    ClientSyntaxSpec.checkCore (ClientSyntaxSpec.Server.afterAll ⟨[], []⟩ (steps.map toSrv))
+      (contsOf o.acts) (refusalsOf o.acts) false o.wire = .ok := by
+  obtain ⟨h1, h2⟩ := session_state steps {} ⟨[], []⟩ rfl rfl
+  have := conforms (Sess.run {} steps).caps (Sess.run {} steps).enabled tagNo c script o hc h hres
+  rw [h1, h2] at this
+  exact this
+
+/-- ENABLE, then UNAUTHENTICATE answered with a capability code: 8-bit goes into a literal again -/
+example :
+    (execIn (Sess.run {} [.setCaps [.imap4rev1, .enable, .utf8Accept], .enabled [.utf8Accept],
+        .setCaps [.imap4rev1], .unauthDone]) 3 (.login [106, 195, 169] [120]) []).map (·.acts) = some [(14, .cont)] ∧
+    (execIn (Sess.run {} [.setCaps [.imap4rev1, .enable, .utf8Accept], .enabled [.utf8Accept]])
+        2 (.login [106, 195, 169] [120]) []).map (·.acts) = some [] := by decide +kernel
 
 /-! ### the decisions -/
 
